@@ -582,6 +582,8 @@ def tag_range(suf, d):
     except (ValueError, struct.error):
         return None
     tags = [c[-1] for k in TAGGED for c in cells[k]]
+    if tags and max(tags) % 2 ** 32 == 2 ** 31 - 1:
+        return 2 ** 32            # `faceid <= max_faceid` never fails, faceid++ overflows
     return (max(tags) - min(tags)) if tags else 0
 
 
